@@ -14,6 +14,7 @@ from .. import core
 PREF = 1024
 OPNAMES = ["add8", "max8", "xor8", "min8", "add64"]
 ZERO_SIG = "zero-count-wait-delivers-uncollated-result"
+RESET0_SIG = "reset-zero-on-incomplete-sinc-leaves-ready-empty"
 HANGS = [0]
 
 
@@ -193,12 +194,11 @@ def model_lines(sess, create, igens):
     """model input using the placements the implementation actually used"""
     out = []
     nsl = int(create[1]) * int(create[2])
-    junk = create[5] if sess["hd"] else "-"
     for gi, g in enumerate(sess["gens"]):
         if gi >= len(igens):
             break
         if gi == 0:
-            out.append("S %d %d %d %s %s %d %d" % (sess["hd"], sess["size"], sess["opk"], sess["init"] or "00", junk if junk != "-" else "00", nsl, g["c0"]))
+            out.append("S %d %d %d %s %d %d" % (sess["hd"], sess["size"], sess["opk"], sess["init"] or "00", nsl, g["c0"]))
         else:
             out.append("Z %d" % g["c0"])
         slots = {}
@@ -273,7 +273,8 @@ def oracle_generation(sess, g, ig, create, prev_done):
                         exp = pyop(opk, exp, v)
                     if val != exp.hex():
                         if c0 + adds == 0:
-                            return ("wait on a sinc with zero expected submissions delivered %s, the reduction of no values is the initial value %s" % (val, sess["init"]), ZERO_SIG)
+                            return ("wait on a sinc with zero expected submissions delivered %s, the reduction of no values is the initial value %s "
+                                    "(regression of /repo 15fe3d8)" % (val, sess["init"]), None)
                         return ("wait of participant %s delivered %s, the %s-reduction of the %d submitted values is %s" % (who[1:], val, OPNAMES[opk], len(vals), exp.hex()), None)
     end = ig["end"] or "TIMEOUT"
     if end.startswith("TIMEOUT"):
@@ -281,6 +282,11 @@ def oracle_generation(sess, g, ig, create, prev_done):
     if proviso and end.startswith("END deadlock") and ig["steps"]:
         last = ig["steps"][-1]
         if int(last.split()[2]) == 0 and " Blk" in last.partition(" | ")[2] and decs == c0 + adds:
+            f0 = ig["I"].split() if ig["I"] else None
+            if f0 and f0[1] == "0" and f0[2] == "0" and not prev_done:
+                # the generation started with count 0 and ready empty: only qt_sinc_reset(s, 0) on an incomplete sinc
+                # produces that state (the fill is commented out in the source); unspecified by the API text
+                return ("qt_sinc_reset(s, 0) on an incomplete sinc left ready empty: waiters block although nothing is expected", RESET0_SIG)
             return ("all %d expected submissions arrived but a waiter is still blocked" % decs, None)
     return None
 
@@ -327,10 +333,12 @@ def run_impl(exe, sessions_lines, env, budget_s, notes, watchdog=20, chunk=10):
 
 
 CORPUS = [
-    # zero expected submissions, wait with target (finding class), then reset 2 and reuse
+    # zero expected submissions, wait with target: must deliver the initial value (regression of the defect fixed by
+    # /repo 15fe3d8: result buffer never written); then reset 2 and reuse, then reset 0: again the initial value
     dict(hd=1, size=4, opk=0, init="00000000", gens=[
         dict(c0=0, flavour="ok", progs=[[("w",)], [("v",)]], sched=[0], sched_kind="corpus"),
-        dict(c0=2, flavour="ok", progs=[[("s", "01020304"), ("w",)], [("s", "10203040")], [("w",)]], sched=[839], sched_kind="corpus")]),
+        dict(c0=2, flavour="ok", progs=[[("s", "01020304"), ("w",)], [("s", "10203040")], [("w",)]], sched=[839], sched_kind="corpus"),
+        dict(c0=0, flavour="ok", progs=[[("w",)], [("w",)]], sched=[0], sched_kind="corpus")]),
     # expect-at-zero race: the collator has decremented to zero, an expect re-empties, then the collator fills
     dict(hd=1, size=1, opk=2, init="00", gens=[
         dict(c0=1, flavour="late-expect", progs=[[("s", "0f")], [("e", 1), ("s", "f0")], [("w",)]],
@@ -430,7 +438,11 @@ def run(ctx):
                 if impl != mg:
                     d = core.first_diff(impl, mg)
                     mismatches.append(dict(case, step=d, impl=impl[max(0, d - 2):d + 2], model=mg[max(0, d - 2):d + 2]))
-                why = oracle_generation(sess, g, ig, create, True)
+                prev_ready = False
+                if gi > 0:
+                    pl = (igens[gi - 1]["steps"] or [igens[gi - 1]["I"]])[-1].split()
+                    prev_ready = (pl[3] if pl[0] != "I" else pl[2]) == "1"
+                why = oracle_generation(sess, g, ig, create, prev_ready)
                 if why:
                     oracle_fail.append((why[1], why[0], dict(case, impl_tail=impl[-5:])))
                 if len(samples) < 3 and len(ig["steps"]) > 20 and g["sched_kind"] != "corpus":
@@ -475,7 +487,7 @@ def run(ctx):
                    traces_validated_against_impl=evals, micro_steps_compared=steps_total, input_distribution=hist,
                    configs=[list(c[0]) for c in configs], cases_not_run_budget=skipped, distinct_slots_used=len(placements),
                    correspondence_mismatches=len(mismatches),
-                   refuted_on_current_tree=["wait_without_proviso_refuted", "sinc_value_zero_count_refuted", "reset_zero_incomplete_differs"])
+                   refuted_on_current_tree=["wait_without_proviso_refuted", "reset_zero_incomplete_differs"])
     ctx.assumptions += ["sequential consistency of counter/ready/slot accesses (fences are DESIGN.md section 8)",
                         "the user's operator does not yield: a slot update is atomic with respect to the tasks of the same worker",
                         "FEB words behave as C01/C02 state (readFF blocks on empty, fill releases every waiter)"]
